@@ -26,12 +26,31 @@ def gen(quick: bool) -> str:
         "only2": ["<onlyinclude>", "</onlyinclude>", "<onlyinclude>", "</onlyinclude>"],
         "mix": ["<noinclude>", "</noinclude>", "<includeonly>", "</includeonly>"],
     }
+    skels["NOINC"] = ["<NOINCLUDE>", "</NoInclude>"]  # tag names are case-insensitive
+    skels["noinc_in_cmt"] = ["<!--", "<noinclude>", "-->"]  # a tag merely mentioned inside a comment
     if not quick:
-        skels["NOINC"] = ["<NoInclude>", "</NOINCLUDE>"]
         skels["cmt_in_noinc"] = ["<noinclude>", "<!--", "</noinclude>", "-->"]
     quick_skels = {"noinc", "noinc_open", "cmt", "cmt_open"}  # the others need > 90 s per condition (measured): thorough only
     for tag, lits in skels.items():
         if quick and tag not in quick_skels:
+            continue
+        if quick and tag in ("NOINC", "noinc_in_cmt"):
+            # case-insensitive matching forks on every *pinned* symbolic character; here the tags are concrete text and only
+            # the filler between them is a symbolic one-character string (one concatenation is affordable)
+            hs = [f"h{i}" for i in range(len(lits) - 1)]
+            expr = '"A" + ' + " + ".join(x for i, lit in enumerate(lits) for x in ([repr(lit)] if i == 0 else [f"h{i - 1}", repr(lit)])) + ' + "B"'
+            out.append(f'''
+def body_{tag}({", ".join(h + ": str" for h in hs)}) -> bool:
+    """
+    pre: {" and ".join(f"len({h}) == 1 and {h}[0] in {HOLE}" for h in hs)}
+    post: _
+    """
+    return body_ok({expr})
+
+
+def replay_body_{tag}({", ".join(hs)}):
+    return replay_body({expr})
+''')
             continue
         pos = 0
         pins, holes = [], []
@@ -234,6 +253,88 @@ def toplevel_default(rep: C.Report) -> None:
         ob.detail += f"{type(e).__name__}: {e}"
 
 
+def template_body_pipeline(rep: C.Report, pid: str = "C04") -> None:
+    """Ob6: _template_to_body as a pipeline of regex passes - pass order and early exits (vf/passes.py)."""
+    import ast
+
+    from vf import astpaths as AP
+    from vf import passes as PS
+
+    ob = rep.add(C.Ob("Ob6 includable-part pipeline: comments go before noinclude handling, paired before unclosed, no early exit skips a pass", "E2 z3 (regex overlap, guard constraints) + AST order", ["core.py:Wtp._template_to_body"], "all strings (no length bound) for the overlap and early-exit queries"))
+    try:
+        tree = ast.parse(open(os.path.join(C.SRC, "core.py")).read())
+        fns = [f for q, f in AP.functions(tree) if q[-1] == "_template_to_body"]
+        if len(fns) != 1:
+            ob.verdict, ob.detail = C.NOT_ENCODABLE, "_template_to_body not found"
+            return
+        fn = fns[0]
+        ps = PS.passes(fn)
+        named = {
+            "comment_closed": PS.find_pass(ps, ["<!--x-->"], ["<!--x", "<noinclude>x</noinclude>"]),
+            "comment_open": PS.find_pass(ps, ["<!--x"], ["<noinclude>x"]),
+            "noinclude_paired": PS.find_pass(ps, ["<noinclude>x</noinclude>", "<NOINCLUDE>x</noinclude >"], ["<noinclude>x", "<onlyinclude>x</onlyinclude>"]),
+            "noinclude_open": PS.find_pass(ps, ["<noinclude>x"], ["<!--x", "<onlyinclude>x"]),
+        }
+        # comment_open also matches closed comments; make sure the two are different passes
+        if named["comment_open"] is named["comment_closed"]:
+            named["comment_open"] = next((p for p in ps if p is not named["comment_closed"] and p.matches("<!--x") and not p.matches("<noinclude>x")), None)
+        if named["noinclude_open"] is named["noinclude_paired"]:
+            named["noinclude_open"] = next((p for p in ps if p is not named["noinclude_paired"] and p.matches("<noinclude>x") and not p.matches("<!--x")), None)
+        missing = [k for k, v in named.items() if v is None]
+        if missing:
+            ob.verdict, ob.detail = C.NOT_ENCODABLE, f"passes not identified: {missing} (patterns found: {[p.pattern[:30] for p in ps]})"
+            return
+        problems = []
+        for a, b, witness, want in [
+            ("comment_closed", "noinclude_paired", "X<!-- <noinclude> -->Y<!-- </noinclude> -->Z", "XYZ"),
+            ("comment_closed", "noinclude_open", "X<!-- put docs inside <noinclude> -->Y", "XY"),
+            ("noinclude_paired", "noinclude_open", "X<noinclude>a</noinclude>Y<noinclude>b</noinclude>Z", "XYZ"),
+        ]:
+            r, wit = PS.order_matters(named[a], named[b])
+            ob.queries += 1
+            ob.paths += 1
+            ob.conditions += 1
+            ordered = named[a].line < named[b].line
+            ob.samples.append({"precedence": f"{a} before {b}", "order_matters(z3)": r, "overlap_witness": wit, "ast_order_ok": ordered})
+            if ordered or r == "unsat":
+                ob.confirmed_conditions += 1
+            else:
+                problems.append((f"{b} runs before {a}", witness, want))
+        exits = PS.early_exits(fn, fn.args.args[2].arg if len(fn.args.args) > 2 else "text", ps)
+        for line, status, wit in exits:
+            ob.queries += 1
+            ob.paths += 1
+            ob.conditions += 1
+            if status == "ok":
+                ob.confirmed_conditions += 1
+            elif status == "skips":
+                ob.samples.append({"early_return_at": line, "z3_witness": wit})
+                problems.append((f"early return at core.py:{line} skips a pass", wit, None))
+            else:
+                ob.detail += f"early return at line {line}: guard not translatable; "
+        if not problems:
+            ob.verdict = C.DISCHARGED if not ob.detail else C.INCONCLUSIVE
+            return
+        # replay: the text as a template body
+        import importlib.util
+
+        gen0, _ = xh.prepare(H)
+        mod = xh.load(gen0)
+        hit = None
+        for why, body, want in problems:
+            sig, bad, what = mod.replay_body(body)
+            if bad:
+                hit = (why, sig, what)
+                break
+        if hit:
+            v = rep.violation(hit[1], f"{hit[0]}: {hit[2]}", {"body": body})
+            ob.verdict = C.VIOLATED if v.known is None else C.KNOWN
+        else:
+            ob.detail += f"{[p[0] for p in problems]} but the replay documents transclude as the includable-part scanner says -> inconclusive"
+    except Exception as e:  # noqa: BLE001
+        ob.detail += f"{type(e).__name__}: {e}"
+
+
 KNOWN_PROBES = [
     ("{{#ifeq:01|1|y|n}}", "y", "#ifeq compares '01' and '1' as strings; MediaWiki compares numerically when both are numbers"),
 ]
@@ -279,6 +380,7 @@ def run(rep: C.Report) -> None:
     except Exception as e:  # noqa: BLE001
         rep.add(C.Ob("kernels", "E1 CrossHair", [], "", verdict=C.NOT_ENCODABLE, detail=f"{type(e).__name__}: {e}"))
     toplevel_default(rep)
+    template_body_pipeline(rep)
 
 
 def replay(r: dict) -> int:
